@@ -1,7 +1,7 @@
 (* C02 -- property theorems only.  Proofs live in C02/Proofs*.v. *)
 From Coq Require Import NArith List.
 From DV Require Import Base.Outcome Base.Bytes Base.Names Base.PName C02.Gen C02.Model
-  C02.ProofsBasic C02.ProofsRun C02.ProofsName C02.ProofsComp C02.ProofsStatic C02.ProofsHash C02.ProofsTop
+  C02.ProofsBasic C02.ProofsClone C02.ProofsRun C02.ProofsName C02.ProofsComp C02.ProofsStatic C02.ProofsHash C02.ProofsTop
   C02.ProofsLayout C02.ProofsRead C02.ProofsWrite C02.ProofsBuild C02.ProofsTotal C02.ProofsX.
 Import ListNotations.
 Local Open Scope N_scope.
@@ -169,3 +169,24 @@ Theorem C02_static_insert_bound : forall pos es es',
   (length es' <= 24)%nat /\ pos < 16384 /\ es' = es ++ [pos].
 Proof. exact static_insert_bound. Qed.
 Print Assumptions C02_static_insert_bound.
+
+(* OptBuilder::clone_from transcribed call by call (truncate back to the start
+   of the record, then the source record's own compose: root owner name through
+   the compressor, type, class, the 32 bit TTL word, length, option octets,
+   and the closing length patch of AdditionalBuilder::opt) does to a push
+   exactly what the setter closure with the same field values does: the same
+   builder state and the same outcome, on every target and compressor. *)
+Theorem C02_clone_from_push_is_setter_push : forall c s oh opts,
+  BW c s -> mlen (opts_bytes opts) <= 65535 ->
+  oh_udp oh < 65536 -> oh_ver oh < 256 -> oh_flags oh < 65536 ->
+  mb_push c s (compose_opt_clone c oh opts) = mb_push c s (compose_opt c oh opts).
+Proof. exact opt_push_eq. Qed.
+Print Assumptions C02_clone_from_push_is_setter_push.
+
+(* ... and, whatever the field values, it keeps the writer invariants: tables
+   bounded by the buffer, stream length octets in step, old octets and old
+   table entries untouched. *)
+Theorem C02_clone_from_keeps_writer_invariants : forall c oh opts,
+  WSpec c (compose_opt_clone c oh opts).
+Proof. exact compose_opt_clone_spec. Qed.
+Print Assumptions C02_clone_from_keeps_writer_invariants.
